@@ -265,13 +265,15 @@ def _check_best_feature(case, mds, sf, scores2, tb, labels, ref, thr, desc, clas
         if not d:
             classes.append("best-feature-lower-is-better")
 
-    df = pd.DataFrame({"SpecId": ["s%d" % i for i in range(n)], "Label": tb, "ScanNr": np.arange(n),
+    ltab = render_labels(labels, case["ldtype"])
+    df = pd.DataFrame({"SpecId": ["s%d" % i for i in range(n)], "Label": ltab, "ScanNr": np.arange(n),
                        "ExpMass": np.arange(n) + 1.0})
     for f in order:
         df[f] = feats[f]
     df["Peptide"] = ["P%d" % i for i in range(n)]
     df["Proteins"] = "prot"
-    ds = guarded(mds.LinearPsmDataset, df, "Label", "ScanNr", "Peptide", feature_columns=list(order), sig="LinearPsmDataset")
+    ds = guarded(mds.LinearPsmDataset, df, "Label", "ScanNr", "Peptide", feature_columns=list(order),
+                 copy_data=case["perm"] % 3 != 1, sig="LinearPsmDataset")
     res = _call_best(ds._find_best_feature, thr, "_find_best_feature")
     verify(res, "LinearPsmDataset._find_best_feature")
     done = 1
@@ -371,12 +373,21 @@ def check(case):
 
         got_s = guarded(mds._update_labels, pd.Series(sf), pd.Series(tb), thr, desc, sig="_update_labels")
         require(np.array_equal(got_s, got), "labels-series", "Series inputs give different labels")
+        # a label Series in the case's label dtype (0/1 integers or floats) is converted by _update_labels
+        got_s2 = guarded(mds._update_labels, pd.Series(sf), pd.Series(target), thr, desc, sig="_update_labels")
+        require(np.array_equal(got_s2, got), "labels-series", f"label Series of dtype {case['ldtype']} gives different labels")
         if any(labels) and not all(labels):
-            df = pd.DataFrame({"t": tb, "spec": np.arange(n), "pep": ["P%d" % i for i in range(n)], "f": sf})
-            ds = guarded(mds.LinearPsmDataset, df, "t", "spec", "pep", sig="LinearPsmDataset")
+            # the dataset's label column in the case's label dtype, data copied or not
+            copy = case["perm"] % 3 != 0
+            df = pd.DataFrame({"t": target.copy(), "spec": np.arange(n), "pep": ["P%d" % i for i in range(n)], "f": sf})
+            ds = guarded(mds.LinearPsmDataset, df, "t", "spec", "pep", copy_data=copy, sig="LinearPsmDataset")
             got_d = guarded(ds._update_labels, sf, thr, desc, sig="LinearPsmDataset._update_labels")
-            require(np.array_equal(got_d, got), "labels-dataset", "LinearPsmDataset._update_labels differs")
+            require(np.array_equal(got_d, got), "labels-dataset",
+                    f"LinearPsmDataset._update_labels differs (label dtype {case['ldtype']}, copy_data={copy})")
+            require(np.array_equal(np.asarray(ds.targets).astype(bool), tb), "labels-dataset", "dataset.targets differ from the label column")
             counters["labels_compared"] += n
+            if not copy:
+                classes.append("dataset-copy_data-false")
 
     # --- starting labels of the best feature (what Model.fit trains from) -----
     if not light and any(labels) and not all(labels) and case["perm"] % 2 == 0:
